@@ -366,7 +366,7 @@ func knownWrongErrorAfterClose(kind string, e error) (bool, string) { return fal
 func knownLeakSite(site string) bool                                { return false }
 
 func gen(t *rapid.T) Case {
-	c := Case{Cfg: scn.Config{PingMs: 20, CtxMs: rapid.SampledFrom([]int{100, 300}).Draw(t, "ctx"), CloseTimeoutMs: 100},
+	c := Case{Cfg: scn.Config{PingMs: 20, PingTimeoutMs: 1500, CtxMs: rapid.SampledFrom([]int{100, 300}).Draw(t, "ctx"), CloseTimeoutMs: 100},
 		CutMsgs: -1, Redial: rapid.SampledFrom([]string{"paced", "paced", "instant"}).Draw(t, "redial")}
 	var ups, downs []string
 	nu := rapid.IntRange(0, 2).Draw(t, "nups")
@@ -454,7 +454,7 @@ func TestRegress(t *testing.T) {
 	if ev.ShardIndex() != 0 {
 		t.Skip("shard 0")
 	}
-	cfg := scn.Config{PingMs: 20, CtxMs: 100, CloseTimeoutMs: 100}
+	cfg := scn.Config{PingMs: 20, PingTimeoutMs: 1500, CtxMs: 100, CloseTimeoutMs: 100}
 	pre := scn.Program{{{Kind: "open-up", Obj: "u0", QoS: 1}, {Kind: "write", Obj: "u0", N: 2}, {Kind: "flush", Obj: "u0"}, {Kind: "open-down", Obj: "d0", QoS: 2}, {Kind: "read-data", Obj: "d0"}, {Kind: "meta"}}}
 	// C10-sendmetadata-after-close-blocks / C10-receive-reply-wrong-error / C10-read-after-close: plain close, then the battery
 	sub.One(t, Case{Cfg: cfg, Prefix: pre, CutMsgs: -1, Plan: scn.Program{{{Kind: "close-down", Obj: "d0"}, {Kind: "conn-close"}}}, Redial: "paced"})
